@@ -37,6 +37,55 @@ def const_eval(t):
     return None
 
 
+CONTEXT_FN = [None]        # the function whose trees are being decoded (set by the layout rules): needed for cursors
+
+
+def _chunk_cursor(x):
+    """x = <ChunksExact>::next(it) with it = view.chunks_exact(k): when every next() on that iterator lies on one
+    straight line (pairwise ordered by dominance, outside loops, nothing else consumes the iterator), the n-th call
+    yields view[k*n .. k*n + k].  returns (view tree, k, n) or None"""
+    fn = CONTEXT_FN[0]
+    if fn is None or len(x) < 4 or x[3] is None or x[3] < 0 or not x[2]:
+        return None
+    src = strip(x[2][0])
+    while src[0] in ("cast", "ref"):
+        src = strip(src[2] if src[0] == "cast" else src[1])
+    if not (src[0] == "call" and src[1].rsplit("::", 1)[-1] in ("chunks_exact",) and len(src[2]) == 2):
+        return None
+    k = const_eval(src[2][1])
+    if not k:
+        return None
+    R = Resolver(fn, max_depth=24)
+    nexts = []
+    for bi, t in fn.calls():
+        trees = [R.operand(a) for a in t["args"]]
+        uses = any(y[0] == "call" and y[1] == src[1] and len(y) > 3 and y[3] == src[3] for tr in trees for y in leaves(tr))
+        if not uses:
+            continue
+        last = callee_of(t).rsplit("::", 1)[-1]
+        if last == "next" and len(t["args"]) == 1:
+            nexts.append(bi)
+        elif bi == src[3] or any(callee_of(t).endswith(sfx) for sfx in TRANSPARENT_SUFFIX) or last in CONVERTERS or last in ("branch", "from_le_bytes", "try_into"):
+            continue
+        else:
+            # the items may flow on, the iterator itself must not: only flag calls that take the iterator (not an item)
+            it_passed = any(strip(tr) == src or (strip(tr)[0] in ("ref", "cast") and src in leaves(tr) and not any(
+                y[0] == "call" and y[1].rsplit("::", 1)[-1] == "next" for y in leaves(tr))) for tr in trees)
+            if it_passed:
+                return None
+    if x[3] not in nexts:
+        return None
+    loops = natural_loops(fn)
+    if any(b in body for b in nexts for body in loops.values()):
+        return None
+    for a in nexts:
+        for b in nexts:
+            if a != b and not (fn.dominates(a, b) or fn.dominates(b, a)):
+                return None
+    n = sum(1 for b in nexts if b != x[3] and fn.dominates(b, x[3]))
+    return src[2][0], k, n
+
+
 def byteview(t, depth=0):
     """(root tree, lo, hi) of a byte slice / array view with constant bounds; hi may be None (to the end)"""
     if depth > 8:
@@ -44,6 +93,14 @@ def byteview(t, depth=0):
     x = strip(t)
     while x[0] == "cast":
         x = strip(x[2])
+    if x[0] == "call" and x[1].rsplit("::", 1)[-1] == "next" and "ChunksExact" in x[1]:
+        cur = _chunk_cursor(x)
+        if cur is None:
+            return None
+        bv = byteview(cur[0], depth + 1)
+        if bv is None:
+            return None
+        return (bv[0], bv[1] + cur[1] * cur[2], bv[1] + cur[1] * cur[2] + cur[1])
     sl = slice_of(x)
     if sl is None:
         return (x, 0, None)
@@ -63,6 +120,24 @@ def byteview(t, depth=0):
 
 # -- literal tables -------------------------------------------------------------------------
 
+def _enumerable(it, n=None):
+    """the items an iterator expression yields when they can be listed: the elements of an array literal, or the
+    first n chunks of view.chunks_exact(k) (as constant-bounds slices of the view)"""
+    y = strip(it)
+    while y[0] == "cast":
+        y = strip(y[2])
+    if y[0] == "call" and y[1].rsplit("::", 1)[-1] in ("into_iter", "iter", "iter_mut") and y[2]:
+        return _enumerable(y[2][0], n)
+    if y[0] == "agg" and y[1][0] == "array" and y[2]:
+        return list(y[2])
+    if y[0] == "call" and y[1].rsplit("::", 1)[-1] in ("chunks_exact", "chunks_exact_mut") and len(y[2]) == 2 and n is not None:
+        k = const_eval(y[2][1])
+        if k:
+            rng = lambda a, b: ("agg", ("adt", "std::ops::Range", "Range", ("start", "end")), (("const", "usize", a), ("const", "usize", b)))
+            return [("call", "core::slice::index::<impl std::ops::Index<I> for [T]>::index", (y[2][0], rng(k * i, k * i + k)), -1, ()) for i in range(n)]
+    return None
+
+
 def _table_item(t):
     """the sub-tree `ok(next(<iterator over an array literal>))` inside t, with the items it stands for (the array's
     elements, or (index, element) pairs under enumerate())"""
@@ -70,6 +145,18 @@ def _table_item(t):
         if x[0] == "ok" and x[1][0] == "call" and x[1][1].rsplit("::", 1)[-1] == "next" and x[1][2]:
             it = x[1][2][0]
             enumerated = False
+            z = strip(it)
+            while z[0] == "call" and z[1].rsplit("::", 1)[-1] in ("into_iter",) and z[2]:
+                z = strip(z[2][0])
+            if z[0] == "call" and z[1].rsplit("::", 1)[-1] == "zip" and len(z[2]) == 2:
+                # a literal table zipped with the chunks of a view: pairs (chunk i, element i)
+                a, b = _enumerable(z[2][0]), _enumerable(z[2][1])
+                if a is None and b is not None:
+                    a = _enumerable(z[2][0], len(b))
+                elif b is None and a is not None:
+                    b = _enumerable(z[2][1], len(a))
+                if a is not None and b is not None:
+                    return x, [("agg", ("tuple",), (p, q)) for p, q in zip(a, b)]
             for y in leaves(it):
                 if y[0] == "agg" and y[1][0] == "array" and y[2]:
                     items = list(y[2])
